@@ -182,5 +182,4 @@ def replay(ctx, doc):
         worst = max(abs(Fraction(r)) for _s, r in res["residuals"])
         print("largest residual sum:", float(worst))
         return worst <= Fraction(1, 10**4)
-    print("replay of table-level cases: rerun the check with VERIF_SEED=%s" % doc.get("seed"))
-    return True
+    return None   # re-run the stream with the recorded seed (check.py does it)
